@@ -217,7 +217,7 @@ Definition asn_encode_to_new_buffer (args_ok : bool) (op : enc_op) (malloc_ok : 
   let st0 := {| d_buf := if malloc_ok then Some [] else None; d_cap := 16; d_comp := 0; d_allocs := 0; d_bad := false |} in
   let (st, r) := encode_internal args_ok op (dynamic_cb afail) st0 in
   if (0 <=? encoded r) && negb (encoded r =? d_comp st) then Aborted 4
-  else match d_buf st with
+  else match (if encoded r <? 0 then None else d_buf st) with    (* failure: FREEMEM(buffer), (.buffer) = NULL *)
        | Some bs =>
            if negb (d_comp st <? d_cap st) then Aborted 5      (* assert(computed_size < buffer_size) before the terminator *)
            else Done {| nb_buffer := Some bs; nb_result := r; nb_bad := d_bad st |}
